@@ -405,6 +405,8 @@ class WSGITask(Task):
             self.status = status
 
             # Prepare the headers for output
+            response_headers = []
+
             for k, v in headers:
                 if not isinstance(k, str):
                     raise AssertionError(
@@ -433,7 +435,11 @@ class WSGITask(Task):
                         "a WSGI application (see PEP 3333)" % k
                     )
 
-            self.response_headers.extend(headers)
+                # keep our own (name, value) pair: the application may hand us
+                # mutable pairs and change them after they were checked
+                response_headers.append((k, v))
+
+            self.response_headers.extend(response_headers)
 
             # Return a method used to write the response data.
             return self.write
